@@ -120,6 +120,18 @@ CHECKS = {
             'Values are multiples of 1/8 so float arithmetic is exact; order among coroutines woken in the same '
             'frame not compared; a coroutine started from inside a frame may first run in that frame or the next.',
             'DESIGN.md section 3 / C08'),
+    'C11': ('exploration',
+            'model-based stateful property testing (Hypothesis): set/clear/push_layer histories over a '
+            'ResourceMap vs a nested reference model, all access paths compared after every step, back-links '
+            'checked by walking the real tree',
+            'Randomised search with shrinking over histories with plain and composite keys (odd components '
+            'included), handle / map / pre-populated / layered values; after every step every model path and '
+            'sampled absent paths are read through [], chained [] and get()(), the get-default/KeyError '
+            'equivalence, handle-xor-map and parent/key back-links of every reachable node are checked, clear() '
+            'post-conditions included. Small-scope confidence, no proof.',
+            'Trusts the nested reference model; each object inserted at most once; shadowed handles examined '
+            'only at clear().',
+            'DESIGN.md section 3 / C11'),
 }
 
 ALL = ['C%02d' % i for i in range(1, 21)]
